@@ -78,6 +78,53 @@ func oracleReset(c *Ctx) error {
 		}
 		return unchangedAll(c, "reset was refused")
 	}
+	// a snapshot that holds a name both as a file and as a directory (a tracked file was replaced by a directory and
+	// both were staged) cannot exist in a working tree: what --hard does with those paths is not stated
+	conflicted := map[string]bool{}
+	if mode == "hard" && n < len(es) {
+		for id := range pre.Objects {
+			if strings.HasPrefix(id, es[n].ID) {
+				if snap, err := pre.Snapshot(id); err == nil {
+					for p := range snap {
+						for q := range snap {
+							if strings.HasPrefix(q, p+"/") {
+								conflicted[p], conflicted[q] = true, true
+							}
+						}
+					}
+				}
+			}
+		}
+	}
+	// an untracked file where a directory of the snapshot has to be, or untracked files in a directory that has the
+	// name of a file of the snapshot: "makes every file exist" and "never touches a file that was never tracked"
+	// cannot both be met (and Goit cannot know whether an untracked file was tracked in some earlier history):
+	// a refusal is accepted, the never-tracked files must be intact all the same
+	blocked := false
+	if mode == "hard" && n < len(es) {
+		for id := range pre.Objects {
+			if strings.HasPrefix(id, es[n].ID) {
+				if snap, err := pre.Snapshot(id); err == nil {
+					for p := range snap {
+						for f := range pre.Work.Files {
+							if _, tracked := pre.IdxMap[f]; !tracked && (strings.HasPrefix(f, p+"/") || strings.HasPrefix(p, f+"/")) {
+								blocked = true
+							}
+						}
+					}
+				}
+			}
+		}
+	}
+	if c.Res.Exit != 0 && (len(conflicted) > 0 || blocked) {
+		stats.Label("reset:hard-refused-conflicted-or-blocked")
+		for p, content := range pre.Work.Files {
+			if got, ok := post.Work.Files[p]; !c.H.EverStaged[p] && (!ok || got != content) {
+				return fmt.Errorf("failed reset --hard touched %q, which was never tracked", p)
+			}
+		}
+		return nil
+	}
 	if c.Res.Exit != 0 {
 		return fmt.Errorf("reset %s to position %d of %d failed: %s", mode, n, len(es), c.Res)
 	}
@@ -128,6 +175,9 @@ func oracleReset(c *Ctx) error {
 			return fmt.Errorf("after reset --hard the staging area is not the target commit's snapshot: %v", d)
 		}
 		for p, id := range snap {
+			if conflicted[p] {
+				continue
+			}
 			content, ok := post.Work.Files[p]
 			if !ok {
 				return fmt.Errorf("after reset --hard, %q of the target snapshot does not exist in the working tree", p)
@@ -168,7 +218,7 @@ func oracleReset(c *Ctx) error {
 		if len(rep.Staged) > 0 {
 			return fmt.Errorf("after reset --%s to %s the branch and the staging area hold the same snapshot, yet status lists staged changes: %v", mode, target[:8], rep.Staged)
 		}
-		if mode == "hard" && len(rep.Unstaged) > 0 {
+		if mode == "hard" && len(rep.Unstaged) > 0 && len(conflicted) == 0 {
 			return fmt.Errorf("after reset --hard to %s status lists unstaged changes of tracked files: %v", target[:8], rep.Unstaged)
 		}
 	}
@@ -207,7 +257,7 @@ var profReset = register(&Profile{
 	Oracles: []Oracle{{Name: "reset-exact", Before: beforeReset, After: oracleReset}},
 })
 
-var resetWeights = Weights{"write-new": 14, "modify": 12, "remove-file": 8, "rmdir": 6, "recreate": 2, "add": 18, "rm": 3, "commit": 20,
+var resetWeights = Weights{"dir-at-unstaged-file": 3, "file-at-unstaged-dir": 3, "dir2file": 2, "file2dir": 2, "write-new": 14, "modify": 12, "remove-file": 8, "rmdir": 6, "recreate": 2, "add": 18, "rm": 3, "commit": 20,
 	"reset": 22, "reset-invalid": 5, "write-temp-sibling": 5, "copydir": 3, "revert": 4, "switch": 4, "switch-c": 3, "branch": 2}
 
 // ---------------------------------------------------------------- C09
@@ -456,5 +506,5 @@ var profRestore = register(&Profile{
 	Oracles: []Oracle{{Name: "restore-exact", After: oracleRestore}},
 })
 
-var restoreWeights = Weights{"write-new": 14, "modify": 14, "remove-file": 12, "rmdir": 8, "add": 18, "rm": 4, "commit": 10,
+var restoreWeights = Weights{"dir-at-unstaged-file": 3, "file-at-unstaged-dir": 3, "write-new": 14, "modify": 14, "remove-file": 12, "rmdir": 8, "add": 18, "rm": 4, "commit": 10,
 	"restore": 20, "restore-staged": 18, "restore-invalid": 4, "reset": 3, "dir2file": 3, "file2dir": 3, "write-temp-sibling": 4}
